@@ -16,7 +16,9 @@
 From Juniper Require Import Common.Base Conc.GoLTS.
 Local Open Scope nat_scope.
 
-Inductive act := ASet (v : Z) | AValue | AWatch.
+(* AValueHeld g: a Value call whose caller is held by gate g between the return of Value and its
+   look at the returned channel (so that scenarios can place Sets in that window) *)
+Inductive act := ASet (v : Z) | AValue | AValueHeld (g : nat) | AWatch.
 
 Inductive pc :=
 | PIdle                               (* goroutine not spawned yet *)
@@ -71,6 +73,13 @@ Definition gate_open (s : st) (x : thread) : bool :=
   match t_gate x with
   | None => true
   | Some g => match nth_error (gates s) g with Some b => b | None => false end
+  end.
+
+(* the harness looks at the returned channel at once, or after its hold gate has been opened *)
+Definition poll_allowed (s : st) (x : thread) : bool :=
+  match t_prog x with
+  | AValueHeld g :: _ => match nth_error (gates s) g with Some b => b | None => false end
+  | _ => true
   end.
 
 Definition close_cell (c : cell) : cell := mkCell (c_val c) true (c_set c).
@@ -141,7 +150,8 @@ Definition step (s : st) (l : lab) : option st :=
   | LCallValue t =>
       match getth s t with
       | Some x => match t_prog x with
-                  | AValue :: _ | AWatch :: _ => if ready s x then Some (setth s t (set_pc x PValCalled)) else None
+                  | AValue :: _ | AValueHeld _ :: _ | AWatch :: _ =>
+                      if ready s x then Some (setth s t (set_pc x PValCalled)) else None
                   | _ => None end
       | None => None
       end
@@ -185,7 +195,7 @@ Definition step (s : st) (l : lab) : option st :=
       | Some x => match t_pc x with
                   | PValGot k =>
                       match nth_error (cells s) k with
-                      | Some c => Some (setth s t (set_pc x (PValPolled k (c_closed c))))
+                      | Some c => if poll_allowed s x then Some (setth s t (set_pc x (PValPolled k (c_closed c)))) else None
                       | None => None
                       end
                   | _ => None end
@@ -200,7 +210,7 @@ Definition step (s : st) (l : lab) : option st :=
                           if Z.eqb (c_val c) v && Bool.eqb b b'
                           then match t_prog x with
                                | AWatch :: _ => Some (setth s t (set_pc x (PWait k)))
-                               | AValue :: rest => Some (setth s t (mkT (t_gate x) rest PReady))
+                               | AValue :: rest | AValueHeld _ :: rest => Some (setth s t (mkT (t_gate x) rest PReady))
                                | _ => None
                                end
                           else None
@@ -226,7 +236,7 @@ Definition thread_visible (s : st) (t : nat) : list lab :=
       | PReady | PGate | PWait _ =>
           match t_prog x with
           | ASet v :: _ => [LCallSet t v]
-          | AValue :: _ | AWatch :: _ => [LCallValue t]
+          | AValue :: _ | AValueHeld _ :: _ | AWatch :: _ => [LCallValue t]
           | [] => []
           end
       | PSetClosed => [LRetSet t]
@@ -284,6 +294,7 @@ Definition pc_eqb (a b : pc) : bool :=
 Definition act_eqb (a b : act) : bool :=
   match a, b with
   | ASet v, ASet w => Z.eqb v w
+  | AValueHeld g, AValueHeld h => Nat.eqb g h
   | AValue, AValue | AWatch, AWatch => true
   | _, _ => false
   end.
